@@ -28,6 +28,20 @@ def get_sub(mod, name):
     raise KeyError(name)
 
 
+def call_oracle(sub, case):
+    """oracle call with the non-termination guard: a monitored loop that exceeds its bound is C03's subject; every
+    other property counts the case as inconclusive (and shows the count in its evidence)"""
+    from .core import Outcome
+    from .monitors import NonTermination
+
+    try:
+        return sub.oracle(case)
+    except NonTermination as e:
+        if getattr(sub, "nontermination_outcome", None):
+            return sub.nontermination_outcome(case, e)
+        return Outcome.inconclusive(f"nontermination:{e.loop}")
+
+
 class Recorder:
     def __init__(self, exclusion):
         self.exclusion = set(exclusion)
@@ -90,7 +104,7 @@ def run_hypothesis(sub, tier, n, seed, rec, shrink):
                   print_blob=False, verbosity=hypothesis.Verbosity.quiet)
         @given(strat)
         def test(case):
-            out = sub.oracle(case)
+            out = call_oracle(sub, case)
             if rec.record(case, out):
                 raise _CheckFailure(out.get("bucket"))
 
@@ -151,7 +165,7 @@ def minimise(sub, failure, rec, budget=25):
                 break
             tried += 1
             try:
-                out = sub.oracle(cand)
+                out = call_oracle(sub, cand)
             except Exception:
                 continue
             if out.get("status") == "fail" and out.get("bucket") == bucket:
@@ -166,7 +180,7 @@ def run_enumerate(sub, tier, shard, nshards, rec):
     for i, case in enumerate(sub.enumerate(tier)):
         if i % nshards != shard:
             continue
-        out = sub.oracle(case)
+        out = call_oracle(sub, case)
         if rec.record(case, out):
             f = rec.last_failure
             rec.failures.append(f)
@@ -194,7 +208,7 @@ def main(argv):
             run_enumerate(sub, task["tier"], task["shard"], task["nshards"], rec)
         elif mode == "replay":
             for case in task["cases"]:
-                out = sub.oracle(case["case"])
+                out = call_oracle(sub, case["case"])
                 out["replay_of"] = case.get("path")
                 hit = rec.record(case["case"], out)
                 rec.samples.append({"replay": case.get("path"), "status": out.get("status"),
